@@ -2,6 +2,7 @@ package rules
 
 import (
 	"go/token"
+	"go/types"
 	"strings"
 
 	"golang.org/x/tools/go/ssa"
@@ -374,6 +375,50 @@ func runC08(ctx *core.Ctx) {
 	}
 	// ---- F9 coordinate discipline
 	c08Coordinates(ctx, d, xs, ys)
+	// ---- F10: the anchor search sees the whole of both line tables; the line splitter drops only a truly empty tail
+	ctx.Rule("F10", "whole tables: the anchor search (the function returning the matching pairs) receives the complete line tables of old and new, in that order; the trailing sentinel it returns is then (len(old lines), len(new lines)) - on trimmed tables the sentinel falls short of the end and the last hunk may never be flushed", 1)
+	ctx.Rule("F11", "the line splitter removes the last element of the split only when that element is the empty string itself (text ended in a newline); anything else after the last newline - blanks included - is a line", 1)
+	{
+		n := 0
+		g.Instrs(func(i ssa.Instruction) {
+			c, ok := i.(*ssa.Call)
+			if !ok {
+				return
+			}
+			cal := c.Call.StaticCallee()
+			if cal == nil || !core.InModule(cal) || len(c.Call.Args) != 2 || cal.Signature.Results().Len() != 1 {
+				return
+			}
+			if _, isSl := cal.Signature.Results().At(0).Type().Underlying().(*types.Slice); !isSl || !isSeqT(c.Call.Args[0].Type()) || !isSeqT(c.Call.Args[1].Type()) {
+				return
+			}
+			if c.Call.Args[0].Type().String() != "[]string" {
+				return
+			}
+			n++
+			ctx.Check(xs != nil && c.Call.Args[0] == xs && c.Call.Args[1] == ys, "F10", "diff.Diff#anchor-search-input"+itoa(n), c.Pos(), "%s is given the full line tables of old and new", shortFn(cal))
+		})
+		if n == 0 {
+			ctx.Unknown("F10", "diff.Diff#anchor-search-input", d.Pos(), "no call taking the two line tables found")
+		}
+	}
+	if ln := p.Func("diff", "lines"); ln != nil {
+		lg := graph(p, ln)
+		n := 0
+		lg.Instrs(func(i ssa.Instruction) {
+			sl, ok := i.(*ssa.Slice)
+			if !ok || sl.High == nil || sl.Low != nil || sl.X.Type().String() != "[]string" {
+				return
+			}
+			// l = l[:len(l)-1]: only when the last element equals ""
+			n++
+			exact := cmpFact(lg.FactsAtInstr(sl), token.EQL, isElemLoad(sl.X, nil), isConstStr(""))
+			ctx.Check(exact, "F11", "diff.lines#drop-last"+itoa(n), sl.Pos(), "the last element is dropped only when it is \"\" itself")
+		})
+		if n == 0 {
+			ctx.Unknown("F11", "diff.lines#drop-last", ln.Pos(), "the splitter never drops the empty tail")
+		}
+	}
 	// ---- F4
 	if l := ctx.Need("F4", "diff", "lines"); l != nil {
 		lg := graph(p, l)
